@@ -143,7 +143,7 @@ LINTERS = {
                 cli={"max_methods": "--max-methods", "max_loc": "--max-loc"}, invalid=[("max_methods", 0), ("max_loc", -1)], lang_knob="max_methods"),
     "magic-numbers": dict(cmd="magic-numbers", sections=["magic-numbers"], files=lambda: _files([("py", "magic", 1, 0), ("ts", "magic", 2, 1), ("rs", "magic", 3, 0), ("py", "magic", 4, 2)]),
                           knobs=[("allowed_numbers", [[], [1307], [1307, 1314], [1307, 1314, 1321], [1307, 1314, 1321, 1328]])], cli={},
-                          invalid=[("max_small_integer", 0), ("max_small_integer", -5)], lang_knob=None),
+                          invalid=[("max_small_integer", 0), ("max_small_integer", -5)], lang_knob="allowed_numbers"),
     "dry": dict(cmd="dry", sections=["dry"], files=_dry_files, base={"enabled": True},
                 knobs=[("min_duplicate_lines", [2, 3, 4, 5, 6, 7]), ("min_occurrences", [2, 3, 4, 5])], cli={"min_duplicate_lines": "--min-lines"},
                 invalid=[("min_duplicate_lines", 0), ("min_occurrences", 0), ("storage_mode", "cloud")], lang_knob=None),
@@ -542,7 +542,7 @@ def lang_cases(draw):
             "v_lang": draw(st.sampled_from(values)), "v_base": draw(st.sampled_from(values)), "carrier": draw(st.sampled_from(CARRIERS)), "cli_value": cli_value}
 
 
-LANGMIX = {"srp": ["max_methods", "max_loc"], "nesting": ["max_nesting_depth"]}
+LANGMIX = {"srp": ["max_methods", "max_loc"], "nesting": ["max_nesting_depth"], "magic-numbers": ["allowed_numbers"]}
 
 
 @st.composite
